@@ -21,7 +21,7 @@ def run(tier: str, seed: int, t0: float) -> int:
     c01.collect(jobs, stats, "StepMap", out)
     for key, least in (("verdict:ok", 3000), ("replace:ok", 500), ("replaceAround:ok", 200), ("addMark:ok", 200)):
         if stats.counts.get(key, 0) < least:
-            raise core.MachineryError(f"vacuity gate: {key}={stats.counts.get(key, 0)} < {least}")
+            core.vacuity(out, f"vacuity gate: {key}={stats.counts.get(key, 0)} < {least}")
     return core.finish("C03", tier, seed, stats, out, t0,
                        rule="successfully applied (document, step) pairs with the reported map: TLC-generated small documents x enumerated "
                             "steps; random documents x random steps; every step emitted by random Transform operations; checked at every "
